@@ -75,6 +75,19 @@ CLAIMED['C17'] = dict(
     note='Trusted: rustc MIR, the driver. Assumptions H1, H2 are listed in the evidence; the range clause would need relational numeric reasoning (a solver) - out of this technique family.',
     technique='static analysis: call-structure provenance over MIR (per-edge return terms, sibling distinctness)')
 
+CLAIMED['C13'] = dict(
+    category='other',
+    text='For a strict prefix to load, a read that should hit end-of-input must be satisfied short or its failure ignored - both are shapes. Static who-may-call + error-discipline analysis over the loader cone: the input is touched only via read_exact-family calls or read_to_end on a take()/zlib wrapper (take_bytes compares the delivered length); the outer-reader functions use only exact primitives; the frames and chunk loops are 0..count with a ?-propagated parse call on every iteration and no exit but exhaustion or Err; header/frame/chunk layouts equal the spec so every byte before the end of the last frame is covered by an exact read; no Result in the cone is dropped. Decided for all inputs and cut points; the final inference (counts precede their data) is recorded reasoning.',
+    design_ref='DESIGN.md section 4, C13',
+    note='Trusted: rustc MIR, the driver, the documented contract of read_exact / byteorder read_* (UnexpectedEof on short input).',
+    technique='static analysis: who-may-call on the input over the call-graph cone, loop-exit classification, Result-propagation dataflow')
+CLAIMED['C14'] = dict(
+    category='other',
+    text='read_exact/read_to_end are specified to loop over short reads and retry Interrupted, so a parser touching its input only through them is insensitive to reader chunking; the check decides the shapes that make this argument valid, for all schedules: who-may-call on the input over the whole loader cone; no Seek/BufRead call and no branch on io::ErrorKind; IoError is constructed only in From<io::Error>::from from its argument, every io::Result is converted through it (map_err(to_ase) / ? / into()) and never formatted into another variant; Error::source returns Some(err) exactly for IoError; read_file and read reach the single read_aseprite; no dropped Result.',
+    design_ref='DESIGN.md section 4, C14',
+    note='Trusted: rustc MIR, the driver, the std::io::Read contract (also assumed of user readers that override read_exact). Readers violating that contract are out of scope.',
+    technique='static analysis: who-may-call + error-discipline dataflow + provenance of error construction')
+
 ALL = ['C%02d' % i for i in range(1, 20)]
 
 
